@@ -1,4 +1,34 @@
-// engine K harnesses for module hook 'validator' (included under cfg(kani) by /repo)
+// engine K — protocol/context/validator.rs (property C06: disjoint PRSS / channel record ids per MAC batch)
+use super::*;
+use crate::{ff::Fp32BitPrime, sharding::NotSharded};
+
+type M = Malicious<'static, Fp32BitPrime, NotSharded>;
+
+/// With the call sites' constants (3 PRSS draws, 2 sends per batch) the record ids
+/// (batch offset, k) -> total*offset + k are exact (no wrap) and pairwise distinct.
+#[kani::proof]
+fn c06_mac_batch_record_ids() {
+    let o1: usize = kani::any();
+    let o2: usize = kani::any();
+    kani::assume(o1 <= (u32::MAX as usize - 2) / 3 && o2 <= (u32::MAX as usize - 2) / 3);
+    kani::cover!(o1 != o2);
+    kani::cover!(o1 == (u32::MAX as usize - 2) / 3);
+    let ids1 = [M::u_record(o1, 3), M::w_record(o1, 3), M::r_share_record(o1, 3)];
+    let ids2 = [M::u_record(o2, 3), M::w_record(o2, 3), M::r_share_record(o2, 3)];
+    assert!(u32::from(ids1[0]) as usize == 3 * o1);
+    assert!(u32::from(ids1[1]) as usize == 3 * o1 + 1);
+    assert!(u32::from(ids1[2]) as usize == 3 * o1 + 2);
+    let a: usize = kani::any();
+    let b: usize = kani::any();
+    kani::assume(a < 3 && b < 3);
+    assert!((ids1[a] == ids2[b]) == (o1 == o2 && a == b));
+    // the two sends of propagate_u_and_w
+    let s1 = [M::u_record(o1, 2), M::w_record(o1, 2)];
+    let s2 = [M::u_record(o2, 2), M::w_record(o2, 2)];
+    kani::assume(a < 2 && b < 2);
+    assert!((s1[a] == s2[b]) == (o1 == o2 && a == b));
+    assert!(u32::from(M::reveal_check_zero_record(o1)) as usize == o1);
+}
 
 #[cfg(test)]
 include!(concat!(env!("IPA_VERIF_DIR"), "/.build/playback/validator.rs"));
